@@ -7,17 +7,18 @@ import (
 	"context"
 	"errors"
 	"fmt"
+	"slices"
 	"strings"
 	"time"
 
 	dht "github.com/libp2p/go-libp2p-kad-dht"
 	pb "github.com/libp2p/go-libp2p-kad-dht/pb"
+	record "github.com/libp2p/go-libp2p-record"
+	recpb "github.com/libp2p/go-libp2p-record/pb"
 	"github.com/libp2p/go-libp2p/core/host"
 	"github.com/libp2p/go-libp2p/core/peer"
 	"github.com/libp2p/go-libp2p/core/protocol"
 	"github.com/libp2p/go-libp2p/core/routing"
-	record "github.com/libp2p/go-libp2p-record"
-	recpb "github.com/libp2p/go-libp2p-record/pb"
 	"google.golang.org/protobuf/proto"
 
 	"verif/sim"
@@ -26,11 +27,22 @@ import (
 	"verif/simnet"
 )
 
+// C05 scenario around a whole node (rules and clauses: see the header of
+// c05.go; the oracle is shared). Remote PUT_VALUE records carry a drawn
+// sender-supplied time_received field and, among the invalid flavours, values
+// that are valid under another key of the same run; reads are additionally
+// judged on the harness clock (served-expired-by-receipt,
+// unreadable-before-age-out): a remote writer controls every byte of its
+// record, the node's clock alone decides when "the configured maximum age" is
+// reached. The validator here does not depend on the clock (time-dependent
+// verdicts are generated in the value-store scenario only; on a node C04 owns
+// them).
 func init() {
 	sim.Register(&sim.Scenario{Prop: "C05", Name: "dht-node", Weight: 3, Run: runC05Node,
 		Real: []string{"IpfsDHT in server mode: handleNewStream/handleNewMessage, handlePutValue, handleGetValue, PutValue, GetValue/SearchValue local read path, records.ValueStore incl. background sweep", "msgio framing"},
 		Stub: []string{"host + inbound streams (simhost.Fabric, scripted remote writers/readers)", "outbound RPCs (level-A sender, one honest scripted peer)", "datastore (simds: every operation parks)", "validator (harness rank validator)", "lock hand-over (scheduler-owned)"},
-		Faults: []string{"lock_contended", "time_advance", "probe_remote_put_ack", "probe_remote_put_refused", "probe_local_put_refused", "probe_msgkey_mismatch_rejected", "probe_remote_get_served", "probe_remote_get_expired", "probe_local_get", "probe_gc_delete", "probe_age_boundary_crossed"},
+		Faults: []string{"lock_contended", "time_advance", "probe_remote_put_ack", "probe_remote_put_refused", "probe_local_put_refused", "probe_msgkey_mismatch_rejected", "probe_remote_get_served", "probe_remote_get_expired", "probe_local_get", "probe_gc_delete", "probe_age_boundary_crossed",
+			"probe_put_sender_stamp_acked", "probe_put_other_key_value", "probe_receipt_fresh_read", "probe_receipt_stale_read"},
 	})
 }
 
@@ -40,7 +52,9 @@ type c05nOp struct {
 	remote int
 	key    string
 	rank   int
-	flavor string // valid invalid miskeyed-value msgkey-mismatch
+	flavor string // valid invalid miskeyed-value msgkey-mismatch other-key-value
+	other  string // other-key-value: the key the value belongs to
+	stamp  int    // rput: sender-supplied time_received (c05Stamp kind, 0 = none)
 	tag    string
 
 	started   bool
@@ -147,8 +161,18 @@ func runC05Node(s *sim.Sim) {
 				if o.kind == "lput" {
 					o.flavor = "valid"
 				}
+			case 3:
+				// a value that is valid, but under another key of this run
+				o.flavor = "valid"
+				if len(keys) > 1 {
+					o.flavor = "other-key-value"
+					o.other = keys[(slices.Index(keys, o.key)+1+s.Draw("other-key", len(keys)-1))%len(keys)]
+				}
 			default:
 				o.flavor = "valid"
+			}
+			if o.kind == "rput" {
+				o.stamp = s.Draw("stamp", c05StampKinds)
 			}
 		}
 		ops[i] = o
@@ -159,8 +183,31 @@ func runC05Node(s *sim.Sim) {
 			return []byte("not a rank value")
 		case "miskeyed-value":
 			return rankValue(o.rank, time.Time{}, o.key+"x")
+		case "other-key-value":
+			return rankValue(o.rank, time.Time{}, o.other)
 		}
 		return rankValue(o.rank, time.Time{}, o.key)
+	}
+	// receipt windows (harness clock): a tagged write belongs to the local put
+	// with that tag; an untagged one to a remote PUT_VALUE in flight with the
+	// same key and value (the earliest, if several)
+	or.recvLo = func(r *simds.Rec) (time.Duration, bool) {
+		rec := new(recpb.Record)
+		if proto.Unmarshal(r.Val, rec) != nil {
+			return 0, false
+		}
+		lo, found := time.Duration(0), false
+		for _, o := range ops {
+			if !o.started || o.done || string(rec.GetKey()) != o.key || !bytes.Equal(rec.GetValue(), value(o)) {
+				continue
+			}
+			if (o.kind == "lput" && r.Tag == "@"+o.tag) || (o.kind == "rput" && r.Tag == "") {
+				if !found || o.startedAt < lo {
+					lo, found = o.startedAt, true
+				}
+			}
+		}
+		return lo, found
 	}
 
 	// local operations run on client goroutines
@@ -241,6 +288,12 @@ func runC05Node(s *sim.Sim) {
 			switch o.kind {
 			case "rput":
 				acked := o.resp != nil
+				if o.flavor == "other-key-value" {
+					s.Count("probe_put_other_key_value")
+				}
+				if acked && o.stamp != 0 {
+					s.Count("probe_put_sender_stamp_acked")
+				}
 				if acked {
 					s.Count("probe_remote_put_ack")
 					if o.flavor != "valid" {
@@ -280,16 +333,43 @@ func runC05Node(s *sim.Sim) {
 						s.Violate("served-miskeyed", "GET_VALUE %s answered with a record for key %q", o.key, rec.GetKey())
 					}
 					ok := false
+					same, sameStale := 0, 0 // reads that saw the served record / ... and it was past the max age on the harness clock
 					for _, g := range gets {
 						cl, stored := classify(g)
 						if (cl == "fresh" || cl == "boundary") && proto.Equal(stored, rec) {
 							ok = true
 						}
+						if stored, _, sok := or.parseStored(g.Key, g.Val); g.Found && sok && proto.Equal(stored, rec) {
+							same++
+							if or.byReceipt(g) == "stale" {
+								sameStale++
+							}
+						}
+					}
+					if same > 0 && same == sameStale {
+						s.Count("probe_receipt_stale_read")
+						s.Violate("served-expired-by-receipt", "GET_VALUE %s served a record that the node had received more than the max age %v before every datastore read that saw it (harness clock); its stored time_received is %q", o.key, maxAge, rec.GetTimeReceived())
 					}
 					if !ok {
 						s.Violate("served-not-stored", "GET_VALUE %s served a record that was not the stored, valid, unexpired content at any of its datastore reads", o.key)
 					}
 				} else {
+					// harness clock: every read of the key in the window saw a valid
+					// record the node had received less than the max age before
+					allFresh := len(gets) > 0
+					for _, g := range gets {
+						switch or.byReceipt(g) {
+						case "fresh":
+						case "stale":
+							s.Count("probe_receipt_stale_read")
+							allFresh = false
+						default:
+							allFresh = false
+						}
+					}
+					if allFresh {
+						s.Violate("unreadable-before-age-out", "GET_VALUE %s served nothing although every datastore read of the key saw a valid record the node had received less than the max age %v before (harness clock)", o.key, maxAge)
+					}
 					// nothing served: some read in the window must have seen nothing servable
 					ok := len(gets) == 0
 					for _, g := range gets {
@@ -349,6 +429,18 @@ func runC05Node(s *sim.Sim) {
 				}
 				if first == nil {
 					continue
+				}
+				switch or.byReceipt(first) {
+				case "fresh":
+					s.Count("probe_receipt_fresh_read")
+					if errors.Is(o.err, routing.ErrNotFound) {
+						s.Violate("unreadable-before-age-out", "local GetValue %s found nothing although the node had received the stored record less than the max age %v before the read (harness clock)", o.key, maxAge)
+					}
+				case "stale":
+					s.Count("probe_receipt_stale_read")
+					if o.err == nil && o.lval != nil {
+						s.Violate("served-expired-by-receipt", "local GetValue %s returned a value the node had received more than the max age %v before the read (harness clock)", o.key, maxAge)
+					}
 				}
 				cl, rec := classify(first)
 				switch cl {
@@ -468,7 +560,7 @@ func runC05Node(s *sim.Sim) {
 							m = pb.NewMessage(pb.Message_GET_VALUE, []byte(o.key), 0)
 						} else {
 							m = pb.NewMessage(pb.Message_PUT_VALUE, []byte(o.key), 0)
-							m.Record = &recpb.Record{Key: []byte(o.key), Value: value(o)}
+							m.Record = &recpb.Record{Key: []byte(o.key), Value: value(o), TimeReceived: c05Stamp(o.stamp, maxAge)}
 							if o.flavor == "msgkey-mismatch" {
 								m.Key = []byte(o.key + "y")
 							}
